@@ -242,6 +242,14 @@ def gen_cases(rng, count, nmax):
                 'keep_neg': rng.random() < 0.5, 'xs': qs(queries(rng, pts))}
         if rng.random() < 0.2:
             case['force_extrap'] = True
+        if len(pts) >= 3 and rng.random() < 0.15:
+            # a query shaped like the table itself: as many wavelengths, the same two end points, other interior points
+            sp_ = sorted(pts)
+            inner = set()
+            while len(inner) < len(sp_) - 2:
+                k = rng.randrange(len(sp_) - 1)
+                inner.add(sp_[k] + (sp_[k + 1] - sp_[k]) * rng.choice([0.5, 0.25, 0.75, 0.125]))
+            case['xs'] = qs([sp_[0]] + sorted(inner) + [sp_[-1]])
         yield case
         if rng.random() < 0.5:
             c2 = dict(case)
